@@ -4,6 +4,7 @@ import json
 
 from ..guards import ne, sh
 from ..mir import fields_read, parent_fn, show
+from ..panics import label_names
 from .c08 import propagated
 
 RUN_TRAIT = "sys::ProcessRunner::run"
@@ -498,7 +499,127 @@ def r8_builder_calls_are_effects(ctx):
     r2_effect_tables(ctx)
 
 
-RULES = [("C15-R1", r1_gate), ("C15-R2", r2_no_shell), ("C15-R3", r3_caps), ("C15-R3b", r3b_refusal_before_spawn), ("C15-R4", r4_nothing_dropped), ("C15-R5", r5_set_env), ("C15-R6", r6_configured_text_outlives_configuration), ("C15-R3c", r3c_totals_compared_after_accumulation), ("C15-R7", r7_index_paths_walk_the_same_way), ("C15-R8", r8_builder_calls_are_effects)]
+def r9_names_reach_their_policy(ctx):
+    """What a builder method is *called* decides what the child gets: the name table maps every documented method name to
+    its own variant (reference/language.json; shared with C01-R5), the dispatcher's arm for a variant calls the setter of that
+    stream with the policy of that name (StdinInherit -> set_stdin_policy(StdinPolicy::Inherit)), and the platform layer turns
+    each policy into its own Stdio with no further condition (Text -> piped, Inherit -> inherit, Null -> null,
+    Capture -> piped).  A method that lands on a sibling's variant, or a policy realised as another one for some inputs (an
+    empty stdin text inheriting the interpreter's stdin), gives the child a stream the script did not configure."""
+    import json
+    import os
+    from ..tables import hir_str_table
+    ref = json.load(open(os.path.join(os.path.dirname(os.path.dirname(os.path.dirname(os.path.abspath(__file__)))), "reference", "language.json")))["builtins"]
+    for en, path in (("ProcessCommandBuiltin", "builtins::process::ProcessCommandBuiltin"), ("ProcessResultBuiltin", "builtins::process::ProcessResultBuiltin")):
+        fnm = ctx.need("<%s as builtins::Builtin>::from_name" % path)
+        ctx.touch(fnm)
+        tab = hir_str_table(fnm) or {}
+        for name, (variant, _a, _r) in ref[en].items():
+            if tab.get(name) == variant:
+                ctx.ok("name|%s|%s" % (en, name), fnm.where(), "-> %s" % variant)
+            else:
+                ctx.bad("name|%s|%s|%s" % (en, name, tab.get(name)), fnm.where(), "`%s` resolves to %s::%s, documented %s: the script's call configures something else" % (name, en, tab.get(name), variant))
+        for name in tab:
+            if name not in ref[en]:
+                ctx.bad("name|%s|extra|%s" % (en, name), fnm.where(), "undocumented method name `%s`" % name)
+    fn = ctx.need("runtime::Runtime::eval_process_command_call_mut")
+    ctx.touch(fn)
+    n = 0
+    for S in sorted(fn.live):
+        if fn.blocks[S]["t"]["k"] != "switch":
+            continue
+        si = fn.switch_info(S)
+        if not (si["kind"] == "discr" and si["ty"].endswith("ProcessCommandBuiltin")):
+            continue
+        for lab, tgt in fn.succ[S]:
+            names = label_names(fn, S, [lab], si)
+            if len(names) != 1:
+                continue
+            v = list(names)[0]
+            m = re.match(r"(Stdin|Stdout|Stderr)(Inherit|Null|Capture|Text)$", v)
+            if not m:
+                continue
+            reg = {x for x in fn.reach([tgt], removed_nodes=[S]) if fn.edge_dominated(x, S, [lab])} | {tgt}
+            setters = sorted({(c.callee or "").split("::")[-1] for c in fn.calls() if c.block in reg and "ProcessCommand::" in (c.callee or "")})
+            pols = sorted({(str(st["rv"]["adt"]).split("::")[-1], st["rv"]["variant"]) for b in reg for st in fn.blocks[b]["s"] if st["rv"]["k"] == "agg" and "Policy" in str(st["rv"].get("adt"))})
+            stream, pol = m.group(1).lower(), m.group(2)
+            n += 1
+            if pol == "Text":
+                good = setters == ["set_%s_text" % stream]
+            else:
+                good = setters == ["set_%s_policy" % stream] and pols == [("StdinPolicy" if stream == "stdin" else "OutputPolicy", pol)]
+            if good:
+                ctx.ok("arm|%s" % v, fn.where(tgt), "%s %s" % (setters, pols))
+            else:
+                ctx.bad("arm|%s|%s|%s" % (v, ",".join(setters), ",".join("%s::%s" % p for p in pols)), fn.where(tgt), "the arm for %s calls %s with %s: the method configures another stream or another policy than its name says" % (v, setters, pols))
+        break
+    ctx.floor("stream-policy arms of the command dispatcher", n, 9)
+    want = {"process::StdinPolicy": {"Inherit": "inherit", "Null": "null", "Text": "piped"}, "process::OutputPolicy": {"Inherit": "inherit", "Null": "null", "Capture": "piped"}}
+    seen = set()
+    for f in ctx.lib.fns.values():
+        if not f.file.startswith("src/sys/process"):
+            continue
+        for S in sorted(f.live):
+            if f.blocks[S]["t"]["k"] != "switch":
+                continue
+            si = f.switch_info(S)
+            if si["kind"] != "discr" or si["ty"] not in want:
+                continue
+            stdio = [c for c in f.calls() if "process::Stdio::" in (c.callee or "")]
+            if not stdio:
+                continue
+            ctx.touch(f)
+            seen.add(si["ty"])
+            covered = set()
+            for lab, tgt in f.succ[S]:
+                names = label_names(f, S, [lab], si)
+                reg = {x for x in f.reach([tgt], removed_nodes=[S]) if f.edge_dominated(x, S, [lab])} | {tgt}
+                got = sorted({(c.callee or "").split("::")[-1] for c in stdio if c.block in reg})
+                for v in names:
+                    covered.add(v)
+                    exp = want[si["ty"]].get(v)
+                    via = {c.block for c in stdio if (c.callee or "").split("::")[-1] == exp}
+                    always = tgt in via or not (set(f.reach([tgt], removed_nodes=via)) & set(f.exits()))
+                    if not always:
+                        got = sorted(set(got) | {(c.callee or "").split("::")[-1] for c in stdio if c.block in f.reach([tgt], removed_nodes=[S]) and (c.callee or "").split("::")[-1] != exp})
+                    if len(names) == 1 and got == [exp] and always:
+                        ctx.ok("stdio|%s::%s" % (si["ty"].split("::")[-1], v), f.where(tgt), "Stdio::%s()" % exp)
+                    else:
+                        ctx.bad("stdio|%s::%s|%s" % (si["ty"].split("::")[-1], v, ",".join(got) or "shared-arm"), f.where(tgt), "%s::%s is realised as Stdio::%s (documented: always Stdio::%s): for some configured values the child gets another stream than the script asked for" % (si["ty"].split("::")[-1], v, "/".join(got) or "<a shared arm>", exp))
+            for v in want[si["ty"]]:
+                if v not in covered:
+                    ctx.bad("stdio|%s::%s|no-arm" % (si["ty"].split("::")[-1], v), f.where(S), "no arm of its own for %s::%s" % (si["ty"].split("::")[-1], v))
+            break
+    for ty in want:
+        if ty not in seen:
+            ctx.bad("stdio|%s|table-missing" % ty.split("::")[-1], "", "no function under src/sys/process* turns %s into a Stdio" % ty)
+    # every run() executes a *copy* of the command (clone_into): a hand-written copy of a policy yields the same policy
+    k = 0
+    for f in ctx.lib.fns.values():
+        if f.file != "src/process.rs":
+            continue
+        for S in sorted(f.live):
+            if f.blocks[S]["t"]["k"] != "switch":
+                continue
+            si = f.switch_info(S)
+            if si["kind"] != "discr" or si["ty"] not in want:
+                continue
+            for lab, tgt in f.succ[S]:
+                names = label_names(f, S, [lab], si)
+                reg = {x for x in f.reach([tgt], removed_nodes=[S]) if f.edge_dominated(x, S, [lab])} | {tgt}
+                built = sorted({st["rv"]["variant"] for b in reg for st in f.blocks[b]["s"] if st["rv"]["k"] == "agg" and str(st["rv"].get("adt", "")).endswith(si["ty"].split("::")[-1])})
+                if not built or not names:
+                    continue
+                k += 1
+                ctx.touch(f)
+                if len(names) == 1 and built == sorted(names):
+                    ctx.ok("policy-copy|%s|%s::%s" % (parent_fn(f.id).split("::")[-1], si["ty"].split("::")[-1], built[0]), f.where(tgt), "copied as itself")
+                else:
+                    ctx.bad("policy-copy|%s|%s::%s->%s" % (parent_fn(f.id).split("::")[-1], si["ty"].split("::")[-1], "/".join(sorted(names)), "/".join(built)), f.where(tgt), "%s turns %s::%s into %s: the command that is actually run (a copy) has another stream configuration than the one the script built" % (parent_fn(f.id).split("::")[-1], si["ty"].split("::")[-1], "/".join(sorted(names)), "/".join(built)))
+    ctx.floor("hand-written policy copies", k, 3)
+
+
+RULES = [("C15-R1", r1_gate), ("C15-R2", r2_no_shell), ("C15-R3", r3_caps), ("C15-R3b", r3b_refusal_before_spawn), ("C15-R4", r4_nothing_dropped), ("C15-R5", r5_set_env), ("C15-R6", r6_configured_text_outlives_configuration), ("C15-R3c", r3c_totals_compared_after_accumulation), ("C15-R7", r7_index_paths_walk_the_same_way), ("C15-R8", r8_builder_calls_are_effects), ("C15-R9", r9_names_reach_their_policy)]
 
 EXPLANATION = (
     "R1: the platform process runner is invoked only from the `run` arm of the command dispatcher, edge-dominated by "
@@ -517,3 +638,6 @@ EXPLANATION += (
 ASSUMPTIONS = ["unix back end only (windows/wasm back ends are not compiled on this host)", "std::process::Command delivers argv/env/cwd verbatim (no shell)"]
 TRUSTED = ["rustc nightly MIR and trait resolution", "nsx exporter", "nsverif expression reconstruction"]
 NONTRIVIAL = "one obligation per cap, per ProcessSpec/ProcessCommand field and per spawn-path operand; distinct = distinct cap/field/operand"
+EXPLANATION += (
+    ' R9: method name -> documented variant (reference/language.json), the dispatcher arm of <Stream><Policy> calls set_<stream>_policy with that policy (or set_<stream>_text), every hand-written copy of a policy (clone_into) yields the same policy, and the platform layer turns each policy into its own Stdio on every path from that arm.'
+)
